@@ -31,27 +31,43 @@ def main():
     opts = dict(a[2:].split("=", 1) for a in sys.argv[1:] if a.startswith("--") and "=" in a)
     tier = opts.get("tier", "quick")
     ids = args or sorted(p.name for p in SEEDED.iterdir() if (p / "patch.diff").exists())
-    assert sh("git -C /repo status --porcelain --untracked-files=no").stdout.strip() == "", "/repo has uncommitted changes"
+    use_wt = "worktree" in opts or "--worktree" in sys.argv
+    if not use_wt:
+        assert sh("git -C /repo status --porcelain --untracked-files=no").stdout.strip() == "", "/repo has uncommitted changes"
     summary = []
     for sid in ids:
         d = SEEDED / sid
         meta = json.loads((d / "meta.json").read_text())
         checks = opts.get("checks", ",".join([meta["property"]] + meta.get("also_run", []))).split(",")
         res = {"id": sid, "property": meta["property"], "runs": []}
+        wt = f"/tmp/mutv/{sid}"
+        env = None
         try:
-            r = sh(f"git -C /repo apply {d / 'patch.diff'}")
+            if use_wt:
+                # same effect as patching /repo, without disturbing other jobs that are using /repo right now
+                sh(f"git -C /repo worktree remove --force {wt}")
+                sh(f"mkdir -p /tmp/mutv && git -C /repo worktree add -q --detach {wt} HEAD")
+                r = sh(f"git -C {wt} apply {d / 'patch.diff'}")
+                import os
+                env = dict(os.environ, E3NN_REPO=wt)
+            else:
+                r = sh(f"git -C /repo apply {d / 'patch.diff'}")
             if r.returncode != 0:
                 res["error"] = "patch does not apply: " + r.stdout[-500:]
                 summary.append(res)
                 continue
             for c in checks:
                 t = time.time()
-                r = sh(f"./check {c} --tier {tier}", cwd=V, timeout=3600)
+                r = sh(f"./check {c} --tier {tier}", cwd=V, timeout=3600, env=env)
                 viol = [l for l in r.stdout.splitlines() if l.startswith("VIOLATION")]
                 res["runs"].append({"check": c, "exit": r.returncode, "wall_s": round(time.time() - t, 1), "violations": viol[:12],
                                     "n_violations": len(viol), "no_failing_input_found": sum("no-failing-input-found" in v for v in viol)})
         finally:
-            clean_repo()
+            if use_wt:
+                sh(f"git -C /repo worktree remove --force {wt}")
+                sh(f"git -C {V} checkout -- lean/E3nnVerif/Generated")
+            else:
+                clean_repo()
         res["detected_by"] = [x["check"] for x in res["runs"] if x["exit"] == 1 and x["n_violations"] > 0]
         res["detected_with_concrete_input_by"] = [x["check"] for x in res["runs"] if x["exit"] == 1 and x["n_violations"] > x["no_failing_input_found"]]
         (d / "result.json").write_text(json.dumps(res, indent=1))
